@@ -100,6 +100,13 @@ fn targets(tier: Tier) -> Vec<Target> {
     let mut ops: Vec<SOp> = file.chunks(7).map(|c| SOp::WriteAll(Hex(c.to_vec()))).collect();
     ops.push(SOp::Finish);
     t.push(Target { label: format!("Stream {} bytes in 7-byte writes", big), base: Case::Stream { opts: Opts::default(), sk: Sk::default(), ops }, must_flush: true });
+    // other piece sizes: which symbol is decoded from the staging buffer (and so which code path meets the failing
+    // window flush) depends on where the piece boundaries fall
+    for piece in tier.pick(vec![11usize, 19, 64], vec![2usize, 3, 5, 11, 13, 19, 64, 100]) {
+        let mut ops: Vec<SOp> = file.chunks(piece).map(|c| SOp::WriteAll(Hex(c.to_vec()))).collect();
+        ops.push(SOp::Finish);
+        t.push(Target { label: format!("Stream {} bytes in {}-byte writes", big, piece), base: Case::Stream { opts: Opts::default(), sk: Sk::default(), ops }, must_flush: true });
+    }
     t
 }
 
@@ -158,6 +165,10 @@ pub fn run(tier: Tier) -> i32 {
         for c in [1usize, 2, 3, 7] {
             jobs.push(Job { ti, rd: None, sk: Sk { chunk: c, ..Sk::default() }, fault: false, what: format!("sink accepts at most {} byte(s) per write", c) });
         }
+        // a sink with its own write_vectored that accepts part of a multi-buffer call
+        for c in [1usize, 2, 3, 4, 5, 7, 4096, 65536] {
+            jobs.push(Job { ti, rd: None, sk: Sk { chunk: c, vectored: true, ..Sk::default() }, fault: false, what: format!("sink with write_vectored accepting at most {} byte(s) per call, across buffers", c) });
+        }
         let n = b.out.len();
         let stride = (n / tier.pick(400, 3000)).max(1);
         let mut p = 1;
@@ -190,7 +201,8 @@ pub fn run(tier: Tier) -> i32 {
             ctx.nontriv(1);
             // one-shot calls: the call returns Err. Stream: the call in which the fault occurred returns Err
             // (a later finish() may legitimately succeed once the sink works again).
-            let errd = if o.ops.is_empty() { o.v.is_err() } else { o.ops.iter().any(|x| x.v.is_err()) && !o.ops.iter().any(|x| x.v.is_panic()) };
+            // Stream: precisely the call during which the sink failed reports it.
+            let errd = if o.ops.is_empty() { o.v.is_err() } else { o.ops.iter().find(|x| x.fault).map_or(false, |x| x.v.is_err()) && !o.ops.iter().any(|x| x.v.is_panic()) };
             if !(errd && b.out.starts_with(&o.out.0)) {
                 ctx.violation(&case, &format!("{}: {} => Err, and the {} bytes accepted by the sink are a prefix of the fault-free output", t.label, j.what, o.out.0.len()), &o, None);
             }
